@@ -1,5 +1,5 @@
 (* Extraction of the StateDB model for ocaml/state/driver.ml.  ExtrOcamlBasic only. *)
-From AQ Require Import Lib.Bytes Lib.ExtractBase Lib.Keccak State.StateSpec State.StateModel State.StateRoot State.ManagedModel State.StateAbs.
+From AQ Require Import Lib.Bytes Lib.ExtractBase Lib.Keccak State.StateSpec State.StateModel State.StateRoot State.ManagedModel State.StateAbs State.StateDb.
 Require Extraction.
 Require Import ExtrOcamlBasic.
 Extraction "../ocaml/state/model.ml" base_anchor keccak256
@@ -9,4 +9,4 @@ Extraction "../ocaml/state/model.ml" base_anchor keccak256
   exist is_empty get_balance get_nonce get_code get_code_size get_code_hash get_state
   has_suicided get_refund get_logs get_obj aget nmem run step state_root
   manage_state ms_has ms_new_nonce ms_get_nonce ms_set_nonce ms_remove_nonce
-  astep abs_state a_view a_store a_exist a_empty.
+  astep abs_state a_view a_store a_exist a_empty refs commit_db_keys.
